@@ -1,0 +1,16 @@
+//go:build verif
+
+// Verification hook (build tag verif), add-only: the block stream handler that Run passes to Communicator.Sync.
+
+package node
+
+import (
+	"context"
+
+	"github.com/vechain/thor/v2/block"
+)
+
+// VerifHandleBlockStream is handleBlockStream: the handler Run hands to comm.Sync.
+func (n *Node) VerifHandleBlockStream(ctx context.Context, stream <-chan *block.Block) error {
+	return n.handleBlockStream(ctx, stream)
+}
